@@ -574,8 +574,34 @@ func analyseBoolNode(p *load.Program, fn *ssa.Function, list *ssa.Parameter, ari
 		if !loop.Blocks[body] {
 			body = loop.Header.Succs[1]
 		}
+		var trail []*ssa.BasicBlock
+		resolveOnTrail := func(v ssa.Value) ssa.Value {
+			for i := 0; i < 8; i++ {
+				ph, ok := v.(*ssa.Phi)
+				if !ok || ph == flag {
+					return v
+				}
+				found := false
+				for k := len(trail) - 1; k >= 1; k-- {
+					if trail[k] == ph.Block() {
+						for ei, pb := range ph.Block().Preds {
+							if pb == trail[k-1] {
+								v, found = ph.Edges[ei], true
+							}
+						}
+						break
+					}
+				}
+				if !found {
+					return v
+				}
+			}
+			return v
+		}
 		var walk func(b *ssa.BasicBlock, it boolIter, on map[*ssa.BasicBlock]bool)
 		walk = func(b *ssa.BasicBlock, it boolIter, on map[*ssa.BasicBlock]bool) {
+			trail = append(trail, b)
+			defer func() { trail = trail[:len(trail)-1] }()
 			// copy
 			nf := map[int]boolRes{}
 			for k, v := range it.final {
@@ -636,7 +662,7 @@ func analyseBoolNode(p *load.Program, fn *ssa.Function, list *ssa.Parameter, ari
 					if flag != nil {
 						for ei, pb := range loop.Header.Preds {
 							if pb == b {
-								ev := flag.Edges[ei]
+								ev := resolveOnTrail(flag.Edges[ei])
 								if ev == ssa.Value(flag) {
 									it.flagSet = 0
 								} else if c, isC := ev.(*ssa.Const); isC && c.Value != nil && c.Value.String() == "true" {
@@ -725,6 +751,18 @@ func analyseBoolNode(p *load.Program, fn *ssa.Function, list *ssa.Parameter, ari
 			if loop != nil && ec.at == ind.Cond {
 				continue
 			}
+			// a short-circuit `a && b` / `a || b` used as a condition is a bool phi: on this path it
+			// stands for the operand that decided it
+			if ph, isPhi := ec.cond.(*ssa.Phi); isPhi && !(flag != nil && ph == flag) {
+				rv := fp.resolveAt(ph, ec.at.Block())
+				if cst, isC := rv.(*ssa.Const); isC && cst.Value != nil {
+					if (cst.Value.String() == "true") != ec.taken {
+						feasible = false
+					}
+					continue
+				}
+				ec.cond = rv
+			}
 			if flag != nil && ec.cond == ssa.Value(flag) {
 				flagFact = 0
 				if ec.taken {
@@ -765,7 +803,7 @@ func analyseBoolNode(p *load.Program, fn *ssa.Function, list *ssa.Parameter, ari
 					continue
 				}
 			}
-			ba.problem("condition outside the merge loop that is neither a length-1 test nor a whole-match marker test of an operand's verdict list")
+			ba.problem("condition outside the merge loop that is neither a length-1 test nor a whole-match marker test of an operand's verdict list (%s: %s)", condText(ec.cond), ec.cond.String())
 			feasible = false
 		}
 		if !feasible || len(ret.Results) != 1 {
